@@ -408,6 +408,10 @@ int read_file_stdin(struct in_buffer** buffer,char* infile)
         *buffer = b;
         return OK;
 ERROR:
+        if(b && !*buffer){
+                /* allocated here and never handed to the caller */
+                free_in_buffer(b);
+        }
         return FAIL;
 }
 
